@@ -107,6 +107,7 @@ func (op *Operation) Stop() {
 				}
 				cond := op.cond.Signaled()
 				op.mu.Unlock()
+				verifYield(2)
 				<-cond
 				op.mu.Lock()
 			}
@@ -201,6 +202,7 @@ func (op *Operation) run() {
 		}
 		queryCondSignaled := op.cond.Signaled()
 		op.mu.Unlock()
+		verifYield(1)
 		select {
 		case stalled <- struct{}{}:
 		case <-op.stopping.Done():
